@@ -388,6 +388,9 @@ func buildCatalogue() []item {
 	add("ca-bc-absent", false, caOnly, func(d *desc, pos int) { d.specs[pos].BC = pki.BCAbsent })
 	add("ca-bc-ca-false", false, caOnly, func(d *desc, pos int) { d.specs[pos].BC = pki.BCLeaf })
 	add("ca-ku-absent", false, caOnly, func(d *desc, pos int) { d.specs[pos].KUAbsent = true })
+	// the extension is there and critical, its bit string asserts nothing
+	add("ca-ku-no-bits", false, caOnly, func(d *desc, pos int) { d.specs[pos].KU = 0 })
+	add("leaf-ku-no-bits", false, leafOnly, func(d *desc, pos int) { d.specs[0].KU = 0 })
 	add("ca-ku-not-critical", false, func(pos, n int, ts bool) bool { return pos >= 1 && !ts }, func(d *desc, pos int) { d.specs[pos].KUNotCritical = true })
 	add("ca-ku-not-critical", true, func(pos, n int, ts bool) bool { return pos >= 1 && ts }, func(d *desc, pos int) { d.specs[pos].KUNotCritical = true })
 	add("ca-ku-no-certsign", false, caOnly, func(d *desc, pos int) { d.specs[pos].KU = x509.KeyUsageCRLSign | x509.KeyUsageDigitalSignature })
